@@ -274,7 +274,7 @@ Definition snd_split (case: list N) : option (N * packet * list (list N) * bool 
   match case with
   | link :: r => match parse_packet r with
                  | Some (p, n :: r1) => match parse_lists_n (N.to_nat n) r1 with
-                                        | Some (encs, fl :: ans) => Some (link, p, encs, negb (fl =? 0), ans)
+                                        | Some (encs, fl :: ans) => Some (link, p, encs, fl =? 1, ans)      (* 1 = flush succeeds; any other value names the error kind it fails with *)
                                         | _ => None end
                  | _ => None end
   | [] => None
